@@ -196,7 +196,21 @@ def check(run, prog, tier):
     grouped_ok = None
     seen_fresh = False
     unfilled = set()
+    # a grouping answered from a memo that M6 certifies coherent (reset on every change of its sources) equals the grouping the
+    # miss path computes: the hit paths are represented by the miss paths (twin benign/F05; an incoherent memo is M6's report)
+    from .derived import find_caches
+    from ..util import implied_atoms
+    memo = {("attr", me, A) for _g, A, _src in find_caches(prog, engine(prog, NoInline()), SUBS)}
+
+    def _memo_hit(p):
+        for c, v in implied_atoms(p.conds):
+            c = strip_sites(c)
+            if c[0] == "cmp" and c[2] in memo and c[3] == const(None) and ((c[1] == "is not" and v) or (c[1] == "is" and not v)):
+                return True
+        return False
     for p in sp:
+        if memo and _memo_hit(p):
+            continue
         apps = grouping_appends(p)
         for _e, _D, okg_ in apps:
             grouped_ok = okg_ if grouped_ok is None else (grouped_ok and okg_)
@@ -242,7 +256,10 @@ def check(run, prog, tier):
                             unfilled.add(show(D)[:60])
                         continue
                     if any(pos_of[id(x)] < last_await for x in filed):
-                        fresh = False  # D was filled before the last await
+                        if memo and any(e.kind == "store" and e.target in memo and e.value is not None and strip_sites(e.value) == strip_sites(D) for e in p.events):
+                            seen_fresh = True  # D is the memo's content: equal to a fresh grouping while M6 holds
+                        else:
+                            fresh = False  # D was filled before the last await
                     else:
                         seen_fresh = True
         rounds = max(rounds, n_rounds)
